@@ -19,7 +19,9 @@ TRACT_TEXTS = ['NE/4', 'Lots 1 - 3, S/2N/2', 'Lot 1, Lot 1', 'N/2, N/2', 'Lot 1(
 PLSS_TEXTS = ['T154N-R97W Sec 14: NE/4, Sec 15: Lots 1 - 3, Lot 1', 'T154-R97 Sec 14: NE/4', 'Township 154 North, Range 97 West Sec 1: N/2, N/2; Sec 2: Lot 1(40), Lot 1(38)',
               'NE/4 of Section 14, T154N-R97W less and except the wellbore', 'T154N-R97W Sec 14 NE/4, Sec 15 W/2', 'no plss here', 'T1S-R2E Sections 5 - 3: Lots 4 - 2', 'T154N-R97W Sec 14: NE, Sec 15: SW',
               # OCR artefacts: read only under ocr_scrub -- a non-committing parse(ocr_scrub=True) must not make later parses read them
-              'TlS4N-R97W Sec 14: NE/4', 'T1S4N-R9OW Sec I4: NE/4, Sec 15: W/2']
+              'TlS4N-R97W Sec 14: NE/4', 'T1S4N-R9OW Sec I4: NE/4, Sec 15: W/2',
+              # blocks that yield neither lots nor aliquots, under description-level flags that are handed down to the tracts
+              'T154N-R97W Sections 14 - 15: That part lying north of the river', 'T154-R97 Sec 14: less and except the wellbore, Sec 15: NE']
 T_KWS = [{}, {'clean_qq': True}, {'qq_depth': 1}, {'qq_depth_min': 1, 'qq_depth_max': 3}, {'break_halves': True}, {'suppress_lot_divs': True}, {'clean_qq': False, 'qq_depth_min': 3}]
 P_KWS = [{}, {'parse_qq': True}, {'segment': True}, {'sec_colon_required': True}, {'sec_colon_cautious': True}, {'default_ns': 's', 'default_ew': 'e'},
          {'layout': 'copy_all'}, {'clean_qq': True, 'parse_qq': True}, {'sec_within': True}, {'ocr_scrub': True}]
@@ -257,6 +259,13 @@ def run(tier, mode):
         # parse_tracts twice: results of each tract unchanged apart from the known doubling of tract-generated flags
         if not isinstance(H.call(d.parse_tracts), H.Exn):
             a1 = [results_tract(t) for t in d.tracts]
+            # ... and re-parsing the tracts loses nothing the description had handed down to them: every flag of the description is still on each tract
+            n_or += 1
+            for t in d.tracts:
+                lost = [f for f in list(d.w_flags) + list(d.e_flags) if f not in t.w_flags + t.e_flags]
+                if lost:
+                    fail('parse_tracts_lost_handed_down_flags', {'class': 'PLSSDesc', 'text': text, 'config': cfg, 'parse_qq': pq, 'wait': wait, 'ops': ops, 'tract': t.trs}, lost, 'every description flag still on the tract')
+                    break
             H.call(d.parse_tracts)
             a2 = [results_tract(t) for t in d.tracts]
             n_or += 1
